@@ -5,7 +5,7 @@ use crate::props::e1::*;
 use crate::stf::*;
 use crate::world::{out_t, tx_t};
 use crate::report::Run;
-use melstructs::{Denom, NetID, PoolKey};
+use melstructs::{Denom, NetID, PoolKey, Transaction};
 use serde_json::json;
 
 fn cfg_liquidity() -> AlphaCfg {
@@ -374,7 +374,122 @@ fn ergsym_created_large_before_activation(run: &Run, thorough: bool) {
     }
 }
 
+/// A pool whose reserves are small next to its recorded liquidity (created at 10^6 MEL : 1 token, then 999 tokens sold in), and
+/// withdrawals so small that their share of both reserves rounds to zero - alone and next to a large one.  The tokens of such a
+/// request are burnt like any other's (two zero-valued coins come back); seed C16-r12-2 left the request's coin in place while
+/// the pool's record had already been debited.
+fn withdrawals_whose_share_rounds_to_zero(run: &Run) {
+    use melstructs::{CoinID, TxKind};
+    let eng = Engine::new(run);
+    let (_w, rootn) = root(NetID::Custom02, 0, false);
+    let genesis_value = match rootn.model.coins.get(&CoinID::zero_zero()) {
+        Some(c) => c.coin_data.value.0,
+        None => return,
+    };
+    // block 1: the funds - the deposit's MEL, MEL carriers, and three coins of a new token (1, 999, 5000)
+    let mut outs = vec![out_t(1_000_000, Denom::Mel)];
+    for i in 0..6u128 {
+        outs.push(out_t(1000 + i, Denom::Mel));
+    }
+    outs.extend([out_t(1, Denom::NewCustom), out_t(999, Denom::NewCustom), out_t(5000, Denom::NewCustom)]);
+    let spent: u128 = 1_000_000 + (0..6u128).map(|i| 1000 + i).sum::<u128>();
+    outs.push(out_t(genesis_value - spent, Denom::Mel));
+    let fund = tx_t(TxKind::Normal, vec![CoinID::zero_zero()], outs, 0, b"c16-zero-share".to_vec());
+    let token = Denom::Custom(fund.hash_nosigs());
+    let k = PoolKey::new(Denom::Mel, token);
+    let (mel_first, side) = (k.left() == Denom::Mel, |d: Denom, mel: u128, tok: u128| if d == Denom::Mel { mel } else { tok });
+    let _ = mel_first;
+    let dep_in = if k.left() == Denom::Mel { vec![fund.output_coinid(0), fund.output_coinid(7)] } else { vec![fund.output_coinid(7), fund.output_coinid(0)] };
+    let dep = tx_t(TxKind::LiqDeposit, dep_in, vec![out_t(side(k.left(), 1_000_000, 1), k.left()), out_t(side(k.right(), 1_000_000, 1), k.right())], 0, k.to_bytes().to_vec());
+    let swap = tx_t(TxKind::Swap, vec![fund.output_coinid(8), fund.output_coinid(1)], vec![out_t(999, token), out_t(1000, Denom::Mel)], 0, k.to_bytes().to_vec());
+    let mut node = rootn;
+    let mut ok = true;
+    for a in [
+        Action::Open,
+        Action::Batch { label: "funds and a new token".into(), txs: vec![fund.clone()], expect_ok: true },
+        Action::Seal(None),
+        Action::Open,
+        Action::Batch { label: "deposit 10^6 MEL : 1 token (a new pool)".into(), txs: vec![dep.clone()], expect_ok: true },
+        Action::Seal(None),
+        Action::Open,
+        Action::Batch { label: "swap 999 tokens in".into(), txs: vec![swap.clone()], expect_ok: true },
+        Action::Seal(None),
+    ] {
+        match eng.step(&node, &a) {
+            StepOut::Next(n) => node = n,
+            _ => {
+                ok = false;
+                break;
+            }
+        }
+    }
+    if !ok {
+        run.outcome("zero-share-withdrawals:set-up-not-completed");
+        return;
+    }
+    // the liquidity coin (output 0 of the deposit after settlement) is cut into 100, 50, 500000 and the rest
+    let liq = k.liq_token_denom();
+    let liq_total = match node.model.coins.get(&dep.output_coinid(0)) {
+        Some(c) if c.coin_data.denom == liq => c.coin_data.value.0,
+        _ => {
+            run.outcome("zero-share-withdrawals:no-liquidity-coin");
+            return;
+        }
+    };
+    if liq_total < 600_000 {
+        run.outcome("zero-share-withdrawals:liquidity-smaller-than-expected");
+        return;
+    }
+    let cut = tx_t(TxKind::Normal, vec![dep.output_coinid(0), fund.output_coinid(2)], vec![out_t(100, liq), out_t(50, liq), out_t(500_000, liq), out_t(liq_total - 500_150, liq), out_t(1001, Denom::Mel)], 0, vec![]);
+    let wd = |i: u8, v: u128, carrier: u8| tx_t(TxKind::LiqWithdraw, vec![cut.output_coinid(i), fund.output_coinid(carrier)], vec![out_t(v, liq)], 1000 + carrier as u128 - 1, k.to_bytes().to_vec());
+    let mut base = node;
+    for a in [Action::Open, Action::Batch { label: "liquidity coin cut into 100 / 50 / 500000 / rest".into(), txs: vec![cut.clone()], expect_ok: true }, Action::Seal(None), Action::Open] {
+        match eng.step(&base, &a) {
+            StepOut::Next(n) => base = n,
+            _ => {
+                run.outcome("zero-share-withdrawals:cut-not-accepted");
+                return;
+            }
+        }
+    }
+    let blocks: Vec<(&str, Vec<Transaction>)> = vec![
+        ("withdraw 100 alone", vec![wd(0, 100, 3)]),
+        ("withdraw 100 and 50", vec![wd(0, 100, 3), wd(1, 50, 4)]),
+        ("withdraw 100 next to 500000", vec![wd(0, 100, 3), wd(2, 500_000, 5)]),
+        ("withdraw 500000 alone", vec![wd(2, 500_000, 5)]),
+    ];
+    for (name, txs) in blocks {
+        run.state();
+        let mut n = base.clone();
+        let mut done = true;
+        for t in txs {
+            match eng.step(&n, &Action::Batch { label: format!("{} [{}]", name, crate::world::txid(&t)), txs: vec![t], expect_ok: true }) {
+                StepOut::Next(x) => n = x,
+                _ => {
+                    done = false;
+                    break;
+                }
+            }
+        }
+        if !done {
+            run.outcome("zero-share-withdrawals:request-not-accepted");
+            continue;
+        }
+        match eng.step(&n, &Action::Seal(None)) {
+            StepOut::Next(s) => {
+                run.outcome("zero-share-withdrawals:sealed");
+                // and the block after
+                if let StepOut::Next(o) = eng.step(&s, &Action::Open) {
+                    let _ = eng.step(&o, &Action::Seal(None));
+                }
+            }
+            _ => run.outcome("zero-share-withdrawals:engine-reported-at-seal"),
+        }
+    }
+}
+
 pub fn run(run: &Run) {
+    withdrawals_whose_share_rounds_to_zero(run);
     ergsym_created_large_before_activation(run, run.thorough());
     long_histories(run, run.thorough());
     huge_liquidity(run, run.thorough());
